@@ -2,7 +2,7 @@
 # tools/mut.sh <patch.diff> <ID> [quick|thorough]  -- apply a seeded change to /repo, run one check, undo the change.
 # (development aid; never run while another check is using /repo)
 set -u
-diff=$1; id=$2; tier=${3:-quick}
+diff=$(realpath $1); id=$2; tier=${3:-quick}
 cd /repo || exit 2
 if ! git diff --quiet; then echo "/repo has uncommitted changes; refusing"; exit 2; fi
 git apply "$diff" || { echo "APPLY FAILED"; exit 3; }
